@@ -22,6 +22,7 @@ import (
 func Run(c *lib.Ctx) {
 	c.Rule = "a step-controlled case is non-trivial when it contains at least one release from a yield point; distinct by its full action/observation trace"
 	c.Assumptions = []string{
+		"fire-and-forget node (ffnode.go): every call the hand-written node makes on its own packet.Tracer (Read, Link, Write, Receive incl. Receive(w, nil) = discard, Drop) runs under a harness mutex and is replayed on Uniflow.Tracer (driver c05t): the sizes of the seven maps after each call and the answers the requester received are compared; whether a Write was accepted is read off Tracer.Writes(writer)",
 		"exit races (race.go): that AddExitHook is atomic with respect to Exit (one step in Uniflow.Local / PortMaps / AgentProc) is tied to the code by C04's regenerated process.go facts (Props/C05Tie.lean) and searched for failing inputs by brute force – 3–5 hook-registering operations and Exit released together behind a spin barrier on >= 4 CPUs, 30k trials quick / 300k thorough; a window narrower than the scheduler can hit in that many trials would be missed",
 		"Go's sync.Mutex / RWMutex / channels behave as the atomic-step semantics of Uniflow.Local (a critical section is one step; RLock sections are atomic)",
 		"user call-outs (initialisers, store hooks, foreign exit hooks) terminate; re-entry is NOT assumed away: the store hook with id 100 parks inside AddStoreHook's call-out (yield site 8) and there performs Load / Keys / Store / Delete on the same Local or Exit of the process on the same goroutine (model: a helper thread runs the operation while the caller sits at ashCb – justified by C05.hooks_run_unlocked and the regenerated-facts tie C05.local_calls_out_unlocked); an initialiser re-entering LoadOrStore for its own process is outside (it waits for its own lazy mutex, like sync.Once)",
@@ -95,6 +96,9 @@ func Run(c *lib.Ctx) {
 	// ---- 3. ports, 4. workflows
 	ms = append(ms, runPorts(c, rng, &fails)...)
 	ms = append(ms, runFlows(c, rng, &fails)...)
+
+	// ---- 4b. a hand-written fire-and-forget node on its own tracer (Receive(w, nil) = discard)
+	ms = append(ms, runFireForget(c, rng.Fork(), &fails)...)
 
 	// ---- 5. hook-registering operations racing with Exit on several CPUs
 	runExitRaces(c, rng.Fork(), &fails)
